@@ -1236,6 +1236,14 @@ def dd2sec(dd):
 def dec2hp_v(dec):
     minute, second = divmod(abs(dec) * 3600, 60)
     degree, minute = divmod(minute, 60)
+    # round seconds to 9 DP and carry, as dec2hp does, so the result is valid HP
+    second = second.round(9)
+    carry = second >= 60
+    second = second - 60 * carry
+    minute = minute + carry
+    carry = minute >= 60
+    minute = minute - 60 * carry
+    degree = degree + carry
     hp = degree + (minute / 100) + (second / 10000)
     hp[dec <= 0] = -hp[dec <= 0]
     return hp
